@@ -8,6 +8,7 @@ closed forms of the anomaly conversions (R3).  Does NOT decide any round trip as
 from __future__ import annotations
 
 import ast
+import copy
 
 from rsa.cfg import cfg_of
 from rsa.model import AnchorError, Undecided, call_name, unparse, walk_no_nested
@@ -984,6 +985,155 @@ def rule_r8(chk, p, t):
         r.error("sibling-calls", f"only {n_calls} sibling calls with same-named arguments found")
 
 
+# ====================================================================== R9
+def rule_r9(chk, p, t):
+    from rules.C04 import chain, factor_nfs
+    from rsa.cfg import cfg_of  # noqa: F401
+    from rsa.util import parents_map
+
+    r = chk.rule(
+        "C12.R9",
+        "special-case forms of the perifocal rotation hold at both ends of the inclination range",
+        1,
+        "coe2eci rotates the perifocal vectors by R3(-Omega) R1(-i) R3(-omega) for every inclination in [0, pi].  A "
+        "definition of that rotation that is selected by the repo's inclination predicate is compared with the chain at "
+        "every inclination the selecting branch admits: the generic branch symbolically, the `not isInclined` branch at "
+        "both ends of the domain read off isInclined's own body (its error guard gives the domain, its returned "
+        "interval the inclined part) - with R1(0) = I, R1(+-pi) = diag(1, -1, -1) =: F, R3(a) R3(b) = R3(a + b) and "
+        "F R3(a) = R3(-a) F.  A shortcut that is right for i = 0 and wrong for i = pi (retrograde equatorial) is a "
+        "violation; a shape outside this algebra is left to R7 (undecided there)",
+        "the numerical state",
+    )
+    fn = p.func(f"{ORB}.conversions.coe2eci")
+    inc_fn = p.func(f"{ORB}.isInclined")
+
+    def domain_ends():
+        """(L, U) of isInclined's domain when its returned interval is [L + tol, U - tol]-shaped"""
+        par0 = inc_fn.params[0]
+        lo = hi = None
+        for st in inc_fn.node.body:
+            if isinstance(st, ast.If) and all(isinstance(s, ast.Raise) for s in st.body):
+                for c in st.test.values if isinstance(st.test, ast.BoolOp) and isinstance(st.test.op, ast.Or) else [st.test]:
+                    if isinstance(c, ast.Compare) and len(c.ops) == 1 and isinstance(c.left, ast.Name) and c.left.id == par0:
+                        if isinstance(c.ops[0], ast.Lt):
+                            lo = c.comparators[0]
+                        elif isinstance(c.ops[0], ast.Gt):
+                            hi = c.comparators[0]
+        rets = [n for n in walk_no_nested(inc_fn.node) if isinstance(n, ast.Return)]
+        require(lo is not None and hi is not None and len(rets) == 1, "isInclined: domain guard / single return not recognised", inc_fn.node)
+        rv = rets[0].value
+        require(isinstance(rv, ast.Compare) and len(rv.ops) == 2 and all(isinstance(o, (ast.LtE, ast.Lt)) for o in rv.ops) and isinstance(rv.comparators[0], ast.Name) and rv.comparators[0].id == par0, "isInclined does not return `a <= inc <= b`", rv)
+        return lo, hi
+
+    def is_pi(e):
+        return (isinstance(e, ast.Attribute) and e.attr in ("PI", "pi")) or (isinstance(e, ast.Name) and e.id in ("PI", "pi"))
+
+    def is_zero(e):
+        return isinstance(e, ast.Constant) and isinstance(e.value, (int, float)) and e.value == 0
+
+    def subst(e, name, val):
+        class S(ast.NodeTransformer):
+            def visit_Name(self, n):
+                return copy.deepcopy(val) if n.id == name else n
+
+        return S().visit(copy.deepcopy(e))
+
+    def angle_class(e):
+        """0 / +-pi / None for a rot1 argument after substitution"""
+        x = e
+        while isinstance(x, ast.UnaryOp) and isinstance(x.op, (ast.USub, ast.UAdd)):
+            x = x.operand
+        if is_zero(x):
+            return "zero"
+        if is_pi(x):
+            return "pi"
+        return None
+
+    def nf(e):
+        """(canonical total R3 angle, parity of F) of a chain of R3 / degenerate R1 factors; None if outside the algebra"""
+        total = ast.Constant(0)
+        flips = 0
+        for f in chain(e):
+            for k in factor_nfs(f):
+                if k[0] != "rot":
+                    return None
+                _, axis, ang, sign = k
+                if axis == 1:
+                    cl = angle_class(ang)
+                    if cl == "zero":
+                        continue
+                    if cl == "pi":
+                        flips += 1
+                        continue
+                    return None
+                if axis != 3:
+                    return None
+                a = ang if sign > 0 else ast.UnaryOp(ast.USub(), ang)
+                if flips % 2:
+                    a = ast.UnaryOp(ast.USub(), a)
+                total = ast.BinOp(total, ast.Add(), a)
+        return canon(total), flips % 2
+
+    def generic_nf(e):
+        out = []
+        for f in chain(e):
+            for k in factor_nfs(f):
+                if k[0] != "rot":
+                    return None
+                out.append((k[1], canon(k[2] if k[3] > 0 else ast.UnaryOp(ast.USub(), k[2]))))
+        return out
+
+    def one():
+        import copy as _c  # noqa: F401
+
+        inc = fn.params[2]
+        raan, argp = fn.params[3], fn.params[4]
+        ref = ast.parse(f"rot3(-{raan}).dot(rot1(-{inc}).dot(rot3(-{argp})))", mode="eval").body
+        par = parents_map(fn.node)
+        rot_defs = [n for n in walk_no_nested(fn.node) if isinstance(n, ast.Assign) and len(n.targets) == 1 and isinstance(n.targets[0], ast.Name) and any(isinstance(c, ast.Call) and call_name(c) in ("rot1", "rot3") for c in ast.walk(n.value))]
+        require(rot_defs, "coe2eci: no rotation built from rot1 / rot3", fn.node)
+        lo, hi = domain_ends()
+        n_checked = 0
+        for d in rot_defs:
+            # selecting condition: the nearest enclosing `if` on isInclined(inc) (possibly negated)
+            node, child, sel = par.get(d), d, None
+            while node is not None and node is not fn.node:
+                if isinstance(node, ast.If):
+                    tst, neg = node.test, False
+                    while isinstance(tst, ast.UnaryOp) and isinstance(tst.op, ast.Not):
+                        tst, neg = tst.operand, not neg
+                    if isinstance(tst, ast.Call) and call_name(tst) == "isInclined" and tst.args and isinstance(tst.args[0], ast.Name) and tst.args[0].id == inc and len(tst.args) == 1 and not tst.keywords:
+                        in_body = any(child is s for s in node.body)
+                        sel = "inclined" if in_body != neg else "not-inclined"
+                        break
+                    raise Undecided(f"`{unparse(d)[:60]}` is selected by `{unparse(node.test)}`, not by isInclined({inc})", node)
+                child, node = node, par.get(node)
+            if sel is None:
+                continue  # unconditional definition: R7 compares it with the chain
+            cons = f"{fn.qualname}:{d.targets[0].id}:{sel}"
+            if sel == "inclined":
+                g1, g2 = generic_nf(d.value), generic_nf(ref)
+                if g1 is None:
+                    raise Undecided(f"`{unparse(d.value)[:70]}` is not a product of elementary rotations", d)
+                if g1 != g2:
+                    r.violation(cons, "generic-chain", f"`{unparse(d.value)[:80]}` (inclined case) is not R3(-{raan}) R1(-{inc}) R3(-{argp})", fn.loc(d))
+                    return
+                n_checked += 1
+                continue
+            for end, label in ((lo, "lower end"), (hi, "upper end (retrograde equatorial)")):
+                a = nf(subst(d.value, inc, end))
+                b = nf(subst(ref, inc, end))
+                if a is None or b is None:
+                    raise Undecided(f"`{unparse(d.value)[:70]}` at {inc} = {unparse(end)} is outside the R3 / degenerate-R1 algebra", d)
+                if a != b:
+                    r.violation(cons, f"end:{unparse(end)}", f"`{unparse(d.value)[:80]}` is used whenever not isInclined({inc}), which includes {inc} = {unparse(end)} ({label}); there the rotation must be R3(-{raan}) R1(-{unparse(end)}) R3(-{argp}) = R3({'-' + raan + ' + ' + argp if b[1] else '-' + raan + ' - ' + argp}){' diag(1, -1, -1)' if b[1] else ''}, the shortcut gives something else: a retrograde equatorial orbit is mapped onto the prograde one (y and z of position and velocity mirrored)", fn.loc(d))
+                    return
+                n_checked += 1
+        r.ok(fn.qualname, f"{len(rot_defs)} definition(s) of the perifocal rotation, {n_checked} selected special-case evaluations agree with the 3-1-3 chain", fn.loc())
+
+    r.guard(fn.qualname, one)
+
+
 def run(chk, p, t):
     chk.explanation = (
         "Static decision of a narrow set of structural necessary conditions of C12: (R1) the four places that split "
@@ -995,7 +1145,7 @@ def run(chk, p, t):
         "as numbers, Newton convergence of Kepler's equation."
     )
     chk.assumptions += ["isInclined / isEccentric are the single threshold helpers (tolerances in physics/orbits/__init__.py)"]
-    for fn in (rule_r1, rule_r2, rule_r3, rule_r4, rule_r5, rule_r6, rule_r7, rule_r8):
+    for fn in (rule_r1, rule_r2, rule_r3, rule_r4, rule_r5, rule_r6, rule_r7, rule_r8, rule_r9):
         rid = "C12.R" + fn.__name__[-1]
         if not chk.wants(rid):
             continue
